@@ -205,6 +205,9 @@ func (g *gen6) descRef(path string) {
 }
 
 func (g *gen6) ext(path string, n *int) {
+	if *n < 0 {
+		return
+	}
 	if g.r.Intn(4) == 0 {
 		arg := g.text()
 		sp, sty := g.spellC(arg, false)
@@ -245,7 +248,22 @@ func (g *gen6) musts(path string) {
 
 func (g *gen6) common(path string, kind string) {
 	extN := 0
-	g.descRef(path)
+	if g.r.Intn(12) == 0 {
+		// an extension statement below the description: it is listed with the node, marked with the keyword it stands under
+		arg := g.text()
+		sp, sty := g.spellC(arg, false)
+		dsp, _ := g.spell("d")
+		g.line("description%s%s {", g.ws(), dsp)
+		g.line("  m:ext1%s%s;", g.ws(), sp)
+		g.line("}")
+		g.exp = append(g.exp, exp6{path: path + ".description", want: "d", stmt: "description"})
+		g.exp = append(g.exp, exp6{path: path + ".ext.0.arg", want: arg, stmt: "extension-use", sty: sty})
+		g.exp = append(g.exp, exp6{path: path + ".ext.0.keyword", want: "description", stmt: "extension-use", sty: sty})
+		g.exp = append(g.exp, exp6{path: path + ".ext.#", want: 1, stmt: "secondary-extension-count"})
+		extN = -1 // no further extension statements on this node: the count above is all of them
+	} else {
+		g.descRef(path)
+	}
 	g.ext(path, &extN)
 	if g.r.Intn(4) == 0 {
 		cfg := g.r.Intn(2) == 0
@@ -628,6 +646,10 @@ func lookup(d interface{}, path string) (interface{}, bool) {
 			}
 			cur = v
 		case []interface{}:
+			if seg == "#" {
+				cur = float64(len(x))
+				continue
+			}
 			i, err := strconv.Atoi(seg)
 			if err != nil || i < 0 || i >= len(x) {
 				return nil, false
